@@ -426,6 +426,8 @@ class Engine:
             return x.inst_frozen()
         if isinstance(x, GList):
             return x.inst_list()
+        if isinstance(x, GStr):
+            return self._inst(x._flat())
         dct = getattr(x, '__dict__', None)
         if dct and getattr(type(x), '__lifted_class__', False) and any(deep_sym(v) for v in dct.values()):
             keys = list(dct)
@@ -2246,7 +2248,16 @@ def _enumerate(it, start=0):
     if isinstance(it, GList):
         # positions depend on which elements are present: enumerate every alternative (by length) of the list
         return GList._from([(g, tuple((i + start, v) for i, v in enumerate(t))) for g, t in it.inst_list()])
-    raise Unsupported('enumerate over guarded sequence')
+    if isinstance(it, U) and all(isinstance(v, (list, tuple, str, GList)) for _, v in it.alts):
+        d = E.dag
+        alts = []
+        for g, v in it.alts:
+            for h, t in (v.inst_list() if isinstance(v, GList) else [(TRUE, tuple(v))]):
+                gh = d.and_(g, h)
+                if gh != FALSE:
+                    alts.append((gh, tuple((i + start, x) for i, x in enumerate(t))))
+        return GList._from(alts)
+    raise Unsupported('enumerate over guarded sequence %r' % (type(it).__name__ + ':' + repr(it)[:300],))
 
 
 @override(_b.reversed)
@@ -2593,7 +2604,10 @@ class GStr:
         """flat union of concrete strings (may explode)"""
         alts = [(TRUE, '')]
         d = E.dag
+        stripped = any(p is _STRIP_MARK for _, p in self.pieces)
         for g, p in self.pieces:
+            if p is _STRIP_MARK:
+                continue
             nxt = []
             for h, s in alts:
                 for k, ps in E.alts(p):
@@ -2606,6 +2620,8 @@ class GStr:
             alts = nxt
             if len(alts) > 4096:
                 raise Unsupported('rope flatten explosion')
+        if stripped:
+            alts = [(g, t.strip()) for g, t in alts]
         return E.mk(alts)
 
     def strip(self):
@@ -2662,6 +2678,17 @@ class GStringIO:
 
 
 OVERRIDES[_io.StringIO] = GStringIO
+
+import re as _re
+
+
+@override(_re.split)
+def _re_split(pattern, string, maxsplit=0, flags=0):
+    if isinstance(string, GStr) and pattern == '\n' and not maxsplit and not flags:
+        return string.split('\n')         # line structure of the rope is kept
+    if is_sym(string) or is_sym(pattern):
+        return E.lift(_re.split, [pattern, string, maxsplit, flags])
+    return _re.split(pattern, string, maxsplit, flags)
 
 
 # ---- try / except ------------------------------------------------------
